@@ -15,7 +15,7 @@ GENERIC = [
 ]
 
 add(Contract(
-    RI + "newline.newline", params={"state": "obj:StateInline", "silent": "bool"}, result="bool", props=["C01", "C02"],
+    RI + "newline.newline", params={"state": "obj:StateInline", "silent": "bool"}, result="bool", props=["C01", "C02", "C17"],
     ghost={"defs": {"P0": "old(state.pos)", "T": "new_tokens(state)"}},
     requires=POSR,
     ensures=GENERIC + [
@@ -26,7 +26,8 @@ add(Contract(
                                                     "and len(T[0].content) <= old(len(state.pending)) and forall(k, 0, len(T[0].content), T[0].content[k] == old(state.pending[k])) "
                                                     "and forall(k, len(T[0].content), old(len(state.pending)), old(state.pending[k]) == ' '))", ["C02", "C19"]),
         ("nothing-flushed-means-all-spaces", "implies(result and not silent and len(T) == 1, forall(k, 0, old(len(state.pending)), old(state.pending[k]) == ' '))", ["C02"]),
-        ("skips-only-spaces", "implies(result, forall(k, P0 + 1, state.pos, state.src[k] == ' ' or state.src[k] == '\\t'))", ["C01"]),
+        ("skips-exactly-the-leading-blanks", "implies(result, forall(k, P0 + 1, state.pos, state.src[k] == ' ' or state.src[k] == '\\t') "
+                                             "and (state.pos == state.posMax or not (state.src[state.pos] == ' ' or state.src[state.pos] == '\\t')))", ["C01", "C17"]),
     ],
     loops={0: {"inv": [("ws", "0 <= ws and ws <= pmax - 1 and pmax == len(state.pending) - 1"), ("spaces", "forall(k, ws, len(state.pending), state.pending[k] == ' ')"),
                        ("pending-same", "state.pending == old(state.pending)")], "dec": "ws"},
